@@ -16,7 +16,7 @@ VERBOSITY = False  # stdout of verify -dh -co is parsed / runs must be identical
 TECHNIQUE = 'runtime monitoring: accumulation-model checker for <ignore> lists, independent matcher for record sets, differential directory hashes, exit-code oracle after edits under ignored paths'
 LEVEL = "exploration"
 RULE = (
-    "case = tree with pattern fodder x 1-5 generations, each adding patterns via -i (repeated, duplicates) and/or an -ii file, "
+    "case = tree with pattern fodder (25 % with symbolic links whose own names are pattern fodder) x 1-5 generations, each adding patterns via -i (repeated, duplicates) and/or an -ii file, "
     "flat or nested (children sealed earlier with a subset of the patterns), then edits/additions/removals under ignored paths "
     "followed by verify, verify -dh, diff; class = (pattern classes used, generations, nested, -ii used, edit kind, command)"
 )
